@@ -13,6 +13,8 @@ import OciModel.Driver.WrapRO
 import OciModel.Driver.AuthFile
 import OciModel.Driver.Conc
 import OciModel.Driver.BlobReader
+import OciModel.Driver.Unify
+import OciModel.Driver.UnifyConc
 
 structure DState where
   scopes : OciModel.Driver.Scope.Regs := []
@@ -21,6 +23,7 @@ structure DState where
   sub : OciModel.Driver.Sub.SubState := {}
   wrap : OciModel.Driver.WrapRO.WrapState := {}
   authfile : OciModel.Driver.AuthFile.St := {}
+  uni : OciModel.Driver.Unify.St := {}
 
 /-- One line in, one line out. The first token names the engine. -/
 def step (st : DState) (line : String) : DState × String :=
@@ -32,6 +35,10 @@ def step (st : DState) (line : String) : DState × String :=
     let (m, out) := OciModel.Driver.Mem.drive st.mem rest
     ({ st with mem := m }, out)
   | "srv" :: _ => (st, "skip")
+  | "uni" :: rest =>
+    let (u, out) := OciModel.Driver.Unify.drive st.uni rest
+    ({ st with uni := u }, out)
+  | "uconc" :: rest => (st, OciModel.Driver.UnifyConc.drive rest)
   | "rd" :: rest => (st, OciModel.Driver.BlobReader.drive rest)
   | "conc" :: rest => (st, OciModel.Driver.Conc.drive rest)
   | "authfile" :: rest =>
